@@ -503,11 +503,11 @@ RT_SHAPES = '{"exact","noslash","sub","subslash","dot","enddot","dotdot","enddot
 def rt_cfg(mode, quick, emit, inv="TableOK RouteOK"):
     if quick:
         dom = ('Methods = {"GET","POST"} Transports = {"polling","websocket","webtransport","bogus","absent"}\n'
-               ' Sids = {"absent","unknown","known-same","known-other","closed"} Eios = {"4","3","absent"} Origins = {"ok","ctl"}\n'
+               ' Sids = {"absent","unknown","known-same","known-other","closed","closing"} Eios = {"4","3","absent"} Origins = {"ok","ctl"}\n'
                ' Upgrades = {TRUE, FALSE} Hooks = {"none","deny"} Mws = {"none","fail"} Enabled = {"pw","p"} Eio3s = {TRUE, FALSE}\n')
     else:
         dom = ('Methods = {"GET","POST","PUT"} Transports = {"polling","websocket","webtransport","bogus","absent","repeated"}\n'
-               ' Sids = {"absent","unknown","known-same","known-other","closed"} Eios = {"4","3","absent","garbage"} Origins = {"ok","ctl"}\n'
+               ' Sids = {"absent","unknown","known-same","known-other","closed","closing"} Eios = {"4","3","absent","garbage"} Origins = {"ok","ctl"}\n'
                ' Upgrades = {TRUE, FALSE} Hooks = {"none","allow","deny"} Mws = {"none","ok","fail"} Enabled = {"pw","p","w"} Eio3s = {TRUE, FALSE}\n')
     rm = '{"GET","POST","CONNECT"}' if quick else '{"GET","POST","CONNECT","OPTIONS","DELETE","HEAD"}'
     return ("SPECIFICATION Spec\nCONSTANTS Attach = %s\n Shapes = %s\n RouteMethods = %s\n %s Mode = \"%s\" Emit = %s\nINVARIANTS %s\n"
@@ -567,10 +567,10 @@ def c05(ctx):
 def hs_cfg(quick, emit, inv="TableOK"):
     if quick:
         dom = ('PIs = {25000, 300} PTs = {20000} MaxPayloads = {1000000, 5000} EnabledSets = {"p","pw","pwt","w"} AllowUpgrades = {TRUE, FALSE}\n'
-               ' Eio3s = {TRUE, FALSE} Initials = {"none","text","binary"} Transports = {"polling","websocket"} Eios = {"4","3","absent"} B64s = {FALSE, TRUE}\n')
+               ' Eio3s = {TRUE, FALSE} Initials = {"none","text","binary"} Transports = {"polling","websocket"} Eios = {"4","3","absent","3then4","4then3"} B64s = {FALSE, TRUE}\n')
     else:
         dom = ('PIs = {25000, 300} PTs = {20000, 200} MaxPayloads = {1000000, 5000} EnabledSets = {"p","pw","pwt","pt","w"} AllowUpgrades = {TRUE, FALSE}\n'
-               ' Eio3s = {TRUE, FALSE} Initials = {"none","text","binary"} Transports = {"polling","websocket"} Eios = {"4","3","absent"} B64s = {FALSE, TRUE}\n')
+               ' Eio3s = {TRUE, FALSE} Initials = {"none","text","binary"} Transports = {"polling","websocket"} Eios = {"4","3","absent","3then4","4then3"} B64s = {FALSE, TRUE}\n')
     return "SPECIFICATION Spec\nCONSTANTS %s Emit = %s\nINVARIANTS %s\n" % (dom, emit, inv)
 
 
